@@ -28,6 +28,7 @@ Proof.
   - pose proof (Inv_mark_id w e id HI OK) as X. destruct (ma_mark_id w e id). exact X.
   - pose proof (Inv_delete w e HI) as X. destruct (sl_delete w e). exact X.
   - pose proof (Inv_edelete w e HI) as X. destruct (sl_edelete w e). exact X.
+  - pose proof (Inv_delete_many es w HI) as X. destruct (sl_delete_many w es). exact X.
   - apply Inv_maintain. assumption.
   - apply Inv_ma_maintain. assumption.
   - assumption.
